@@ -122,6 +122,7 @@ PROPS = {
         "level": "model_checking",
         "harnesses": [
             H("H_C17_loadTotal", "real loadFailFile and checkFailFile on 15 malformed/unusable file shapes (empty, comments only, binary garbage, bad seed, extra '#', other version, now-passing, now-invalid, number overflow, truncated, missing version, negative seed, unreadable)", reach=["error", "loaded"], native=False, quick=Q, thorough=T),
+            H("H_C17_mixed", "real doCheck with 1 (quick) / 1..2 (thorough) unusable files of every shape sorted in front of one usable fail file with the same seed, vs. the usable file alone: identical verdict tuple, the usable file is replayed first, no random test case runs", reach=["compared"], native=False, quick=Q, thorough=T),
             H("H_C17_ignored", "real doCheck (checks=2, symbolic seed, shrinktime 0) with 1 (quick) / 1..2 (thorough) unusable files of the 15 shapes present vs. an empty directory: verdict tuple and the sequence of random test cases compared", reach=["compared"], native=False, quick=Q, thorough=T),
         ],
         "assumptions": PERSIST_ASSUME,
@@ -130,6 +131,7 @@ PROPS = {
         "level": "model_checking",
         "harnesses": [
             H("H_C06_rerun", "two-run history on the in-memory file system: real checkTB (checks=1, shrinktime 0, -rapid.nofailfile both ways, 3 (quick) / 11 (thorough) test names incl. unicode, separators, glob metacharacters, reserved names) with a data-dependent property on a symbolic PRNG word, then a second checkTB on the resulting file system", reach=["run1-failed", "run1-not-failed", "nofailfile"], native=False, quick=Q, thorough=T),
+            H("H_C06_twoChecks", "a test that calls Check twice (first passes and draws two words, second fails on one word): two runs of the test on the in-memory file system; the second Check's persisted failure is an invalid test case for the first Check and must survive it and be replayed first", reach=["b-failed", "b-not-failed"], native=False, quick=Q, thorough=T),
             H("H_C06_roundtripLong", "real saveFailFile -> loadFailFile with a 600-word counterexample (about 11 KB of data lines, several refills of the scanner buffer), first/middle/last word and seed symbolic, short or 8 KB captured output", reach=["loaded"], quick=Q, thorough=T),
             H("H_C06_roundtrip", "real saveFailFile -> loadFailFile over the in-memory file system (real bufio.Scanner code executed); seed and <=2 bitstream words symbolic 64-bit; captured output = 0..2 (quick) / 0..3 (thorough) lines chosen by the solver from 10 representative lines (lengths 0,1,..,65533,65534,65535,70000; comment-like, data-like, version-like, blank, CR contents), with/without trailing newline", reach=["loaded"], quick=Q, thorough=T),
         ],
